@@ -15,6 +15,9 @@ from bumble import utils as _utils
 from contracts.c16_env import (CANCELLED, EMITTER, EXCEPTION, FUT, FUT_INLINE, NEW_FUT, PENDING, RESULT, TASKFUT, Fut, RecEmitter, TaskFut, fst, fut_released,
                                run_done_callbacks)
 from pyvc import ext_c16  # noqa: F401
+from pyvc.contracts import Bytes as _Bytes
+from pyvc.contracts import ConcList as _ConcList
+from pyvc.contracts import EmptyDict as _EmptyDict
 from pyvc.contracts import Any, Bool, Callback, Const, Inst, Int, IntRange, ListOf, OneOf, Opaque, Opt, Str, contract, implies, lemma, model
 
 ENVIRONMENT = [
@@ -114,6 +117,18 @@ def _is_future(path, v):
     return isinstance(v, Ref) and isinstance(path.obj(v), Obj) and path.obj(v).cls in (Fut, TaskFut)
 
 
+def _await_ordinal(path, node):
+    """position of this await among the awaits of the enclosing function, in source order (stable obligation names)"""
+    import ast
+
+    f = path.func_stack[-1]
+    aw = sorted((x for x in ast.walk(f.node) if isinstance(x, ast.Await)), key=lambda x: (x.lineno, x.col_offset))
+    for i, x in enumerate(aw):
+        if x is node or (x.lineno, x.col_offset) == (node.lineno, node.col_offset):
+            return i
+    return node.lineno
+
+
 def make_cut_hook(teardown):
     import ast
 
@@ -141,7 +156,7 @@ def make_cut_hook(teardown):
         teardown(path, env)
         st, guard = path.getattr(v, 'st'), path.getattr(v, 'guard')
         released = path.bool_or([path.compare_op(ast.NotEq(), st, PENDING), path.compare_op(ast.NotEq(), guard, 0)])
-        path.oblige(path.cfg.obl_name(path, 'waiter-released', f'L{node.lineno}'), 'waiter-released', released)
+        path.oblige(path.cfg.obl_name(path, 'waiter-released', f'await{_await_ordinal(path, node)}'), 'waiter-released', released)
         return finish(path, v, node)
 
     def finish(path, v, node):
@@ -184,6 +199,13 @@ def mark_event(ghost, fut):
 
 
 def mark_event3(ghost, emitter, event, fut):
+    fut.guard = 1
+    return fut
+
+
+def mark_flush(ghost, emitter, event, fut):
+    """utils.cancel_on_event(device, 'flush', fut): the event Device.on_flush emits when the transport is lost"""
+    assert event == 'flush', 'wrapped-for-the-flush-event'
     fut.guard = 1
     return fut
 
@@ -275,3 +297,232 @@ for _op in ('connect', 'disconnect'):
         await_hook=make_cut_hook(lambda path, env: call_method(path, env['self'], 'abort')),
         note='bare await: released because ChannelManager.on_disconnection aborts every channel of the connection, CONNECTING ones included',
     )
+
+
+# -- GATT client request ----------------------------------------------------------------------------
+def cleared(self):
+    return [self.pending_request is None, self.pending_response is None]
+
+
+model('ghost:Semaphore#c16w', fields={})
+model(
+    'bumble.gatt_client:Client#c16w',
+    fields=dict(request_semaphore=Inst('ghost:Semaphore#c16w'), pending_request=Const(None), pending_response=Const(None), _bearer_id=Str),
+    methods={'send_gatt_pdu': Callback('send_gatt_pdu', effect=rec_frame)},
+)
+contract(
+    'bumble.gatt_client:Client.send_request',
+    prop='C16',
+    profile='skeleton',
+    params=dict(self=Inst('bumble.gatt_client:Client#c16w'), request=Any),
+    ghost=W_GHOST,
+    requires=lambda ghost: [not ghost.cut],
+    # however the wait ends (response, bearer gone, timeout) nothing stays registered as pending
+    ensures=lambda self, ghost, old: cleared(self) + [ghost.frames == old.ghost.frames + 1],
+    ensures_names=['pending-request-cleared', 'pending-response-cleared', 'request-sent-once'],
+    raises={asyncio.CancelledError: cleared, _core.TimeoutError: cleared},
+    modifies=['*'],
+    inline=['Client.on_disconnection', 'TimeoutError.__init__', 'BaseBumbleError.__init__'] + FUT_INLINE,
+    stubs=WAIT_STUBS,
+    with_enter=lambda path, cm: None,
+    with_exit=lambda path, cm: None,
+    # the bearer goes away: Client.on_disconnection is its 'disconnection' / 'close' listener (Client.__init__)
+    await_hook=make_cut_hook(lambda path, env: call_method(path, env['self'], 'on_disconnection', 0x13)),
+    note='request_semaphore (async with) is a no-op stub: mutual exclusion of requests is C10/C12 matter',
+)
+
+
+# -- GATT server indication ---------------------------------------------------------------------------
+def _sem():
+    return 'semaphore'
+
+
+def _none():
+    return None
+
+
+def no_server_state(self, bearer):
+    return bearer not in self.subscribers and bearer not in self.indication_semaphores and bearer not in self.pending_confirmations
+
+
+model('bumble.device:Connection#c16b', fields=dict(handle=IntRange(0, 0xEFF), att_mtu=IntRange(23, 0xFFFF)))
+model('bumble.att:Attribute#c16', fields=dict(handle=IntRange(1, 0xFFFF)), methods={'encode_value': Callback('encode_value', returns=_Bytes)})
+model(
+    'bumble.gatt_server:Server#c16w',
+    fields=dict(subscribers=_EmptyDict(None), indication_semaphores=_EmptyDict(_sem), pending_confirmations=_EmptyDict(_none)),
+    methods={'send_gatt_pdu': Callback('send_gatt_pdu', effect=rec_frame)},
+)
+
+
+def _native_defaultdicts(env):
+    import collections
+
+    s = env['self']
+    s.indication_semaphores = collections.defaultdict(lambda: asyncio.Semaphore(1))
+    s.pending_confirmations = collections.defaultdict(lambda: None)
+
+
+contract(
+    'bumble.gatt_server:Server._indicate_single_bearer',
+    prop='C16',
+    profile='skeleton',
+    params=dict(self=Inst('bumble.gatt_server:Server#c16w'), bearer=Inst('bumble.device:Connection#c16b'), attribute=Inst('bumble.att:Attribute#c16'), value=_Bytes, force=Const(True)),
+    ghost=W_GHOST,
+    requires=lambda ghost: [not ghost.cut],
+    # an indication is waiting for its confirmation when the bearer goes away: the waiter ends (with the timeout error)
+    # and it does not bring the state of the closed bearer back
+    ensures=lambda self, bearer, ghost: [implies(ghost.cut, no_server_state(self, bearer)), implies(not ghost.cut, self.pending_confirmations.get(bearer) is None)],
+    ensures_names=['no-state-of-a-closed-bearer-comes-back', 'slot-free-again'],
+    raises={asyncio.CancelledError: lambda self, bearer, ghost: [implies(ghost.cut, no_server_state(self, bearer))],
+            TimeoutError: lambda self, bearer, ghost: [implies(ghost.cut, no_server_state(self, bearer))]},
+    modifies=['*'],
+    inline=['Server.on_disconnection'] + FUT_INLINE,
+    stubs=WAIT_STUBS,
+    with_enter=lambda path, cm: None,
+    with_exit=lambda path, cm: None,
+    native_setup=_native_defaultdicts,
+    # Device.on_disconnection hands the closed connection to Server.on_disconnection
+    await_hook=make_cut_hook(lambda path, env: call_method(path, env['self'], 'on_disconnection', env['bearer'])),
+    note='forced indication of an encoded value (the subscription gating and the PDU are C12); the confirmation wait is bounded by '
+         'wait_for(GATT_REQUEST_TIMEOUT): the accepted protected form',
+)
+
+
+# -- SMP pairing ------------------------------------------------------------------------------------------
+model('ghost:SmpManager#c16w', fields={}, methods={'on_session_end': Callback('on_session_end')})
+model('ghost:Connection#c16smp', fields=dict(handle=IntRange(0, 0xFFFF)), methods={
+    'cancel_on_disconnection': Callback('cancel_on_disconnection', effect=mark_event), 'remove_listener': Callback('remove_listener')})
+model(
+    'bumble.smp:Session#c16w',
+    fields=dict(pairing_result=Opt(FUT), connection=Inst('ghost:Connection#c16smp'), manager=Inst('ghost:SmpManager#c16w')),
+    methods={'send_pairing_request_command': Callback('send_pairing_request_command', effect=rec_frame)},
+)
+contract(
+    'bumble.smp:Session.pair',
+    prop='C16',
+    profile='skeleton',
+    params=dict(self=Inst('bumble.smp:Session#c16w')),
+    ghost=W_GHOST,
+    requires=lambda self, ghost: [not ghost.cut, self.pairing_result is not None],
+    ensures=lambda ghost, old: [ghost.frames == old.ghost.frames + 1],
+    ensures_names=['pairing-request-sent-once'],
+    raises={asyncio.CancelledError: None, RuntimeError: None},
+    modifies=['*'],
+    inline=['Session.on_disconnection'] + FUT_INLINE,
+    stubs=WAIT_STUBS,
+    await_hook=make_cut_hook(lambda path, env: call_method(path, env['self'], 'on_disconnection', 0x13)),
+    note='an initiator session always has a pairing_result future (Session.__init__); the wait is wrapped in cancel_on_disconnection; '
+         'RuntimeError stands for the pairing failure set on the future (Session.on_pairing_failure)',
+)
+
+
+# -- Device.disconnect -------------------------------------------------------------------------------------
+def rec_on(ghost, event, fn):
+    ghost.listening = ghost.listening + 1
+
+
+def rec_off(ghost, event, fn):
+    ghost.listening = ghost.listening - 1
+
+
+model('ghost:Link#c16w', fields=dict(handle=IntRange(0, 0xFFFF), EVENT_DISCONNECTION=Const('disconnection'), EVENT_DISCONNECTION_FAILURE=Const('disconnection_failure')),
+      methods={'on': Callback('on', effect=rec_on), 'remove_listener': Callback('remove_listener', effect=rec_off)})
+model('bumble.device:Device#c16w', fields=dict(disconnecting=Bool), methods={
+    'send_async_command': Callback('send_async_command', effect=rec_frame, is_async=True, raises=(RuntimeError,)),
+    'emit': Callback('emit'),
+})
+
+
+def disconnect_done(self, ghost, old):
+    return [ghost.listening == old.ghost.listening, not self.disconnecting]
+
+
+contract(
+    'bumble.device:Device.disconnect',
+    prop='C16',
+    profile='skeleton',
+    params=dict(self=Inst('bumble.device:Device#c16w'), connection=Inst('ghost:Link#c16w'), reason=IntRange(0, 255)),
+    ghost=dict(W_GHOST, listening=Int),
+    requires=lambda ghost: [not ghost.cut],
+    # however it ends, the two temporary listeners on the link are removed again and the flag is reset
+    ensures=disconnect_done,
+    ensures_names=['temporary-listeners-removed', 'disconnecting-flag-reset'],
+    raises={asyncio.CancelledError: disconnect_done, RuntimeError: disconnect_done},
+    modifies=['*'],
+    inline=FUT_INLINE,
+    stubs={**WAIT_STUBS, _utils.cancel_on_event: Callback('cancel_on_event', effect=mark_flush)},
+    # transport loss: Host.on_transport_lost emits 'flush', Device.on_flush re-emits it on the device (contracts in c16_teardown.py)
+    await_hook=make_cut_hook(lambda path, env: None),
+    note='the wait for the Disconnection Complete event is wrapped in cancel_on_event(device, "flush"): if the transport dies the '
+         'waiter is cancelled; RuntimeError stands for a failing HCI command (C03) / the disconnection failure set on the future',
+)
+
+
+# -- L2CAP connection parameter update request (peripheral -> central) -----------------------------------------------
+model(
+    'bumble.l2cap:ChannelManager#c16u',
+    fields=dict(connection_parameters_update_response=Opt(FUT), channels=_EmptyDict(None), le_coc_channels=_EmptyDict(None),
+                pending_credit_based_connections=_EmptyDict(None), identifiers=_EmptyDict(None)),
+    methods={'send_control_frame': Callback('send_control_frame', effect=rec_frame), 'next_identifier': Callback('next_identifier', returns=IntRange(1, 255))},
+)
+
+
+def update_done(self):
+    return [self.connection_parameters_update_response is None]
+
+
+contract(
+    'bumble.l2cap:ChannelManager.update_connection_parameters',
+    prop='C16',
+    profile='skeleton',
+    params=dict(self=Inst('bumble.l2cap:ChannelManager#c16u'), connection=W_CONN, interval_min=Int, interval_max=Int, latency=Int, timeout=Int),
+    ghost=W_GHOST,
+    requires=lambda self, ghost: [not ghost.cut],
+    # the manager has ONE slot for this request: whatever ends the wait must also free the slot, or every later request
+    # (on any connection) is refused with 'request already pending'
+    ensures=lambda self, ghost: [implies(ghost.cut, self.connection_parameters_update_response is None)],
+    ensures_names=['slot-free-after-a-cut'],
+    raises={_core.InvalidStateError: None, asyncio.CancelledError: lambda self, ghost: [implies(ghost.cut, self.connection_parameters_update_response is None)]},
+    modifies=['*'],
+    inline=['ChannelManager.on_disconnection'] + FUT_INLINE,
+    stubs=WAIT_STUBS,
+    await_hook=make_cut_hook(lambda path, env: call_method(path, env['self'], 'on_disconnection', path.getattr(env['connection'], 'handle'), 0x13)),
+)
+
+
+# -- enhanced credit-based connection request (EATT) ------------------------------------------------------------------
+model('bumble.l2cap:LeCreditBasedChannelSpec#c16', fields=dict(psm=IntRange(1, 0xFF), mtu=Int, mps=Int, max_credits=Int))
+model(
+    'bumble.l2cap:ChannelManager#c16e',
+    fields=dict(channels=_EmptyDict(None), le_coc_channels=_EmptyDict(None), pending_credit_based_connections=_EmptyDict(None), identifiers=_EmptyDict(None)),
+    methods={
+        'send_control_frame': Callback('send_control_frame', effect=rec_frame),
+        'next_identifier': Callback('next_identifier', returns=IntRange(1, 255)),
+        'find_free_le_cids': Callback('find_free_le_cids', returns=_ConcList(IntRange(0x40, 0x7F), 1)),
+    },
+)
+
+
+def no_l2cap_state(self, connection):
+    h = connection.handle
+    return h not in self.channels and h not in self.le_coc_channels and h not in self.pending_credit_based_connections
+
+
+contract(
+    'bumble.l2cap:ChannelManager.create_enhanced_credit_based_channels',
+    prop='C16',
+    profile='skeleton',
+    params=dict(self=Inst('bumble.l2cap:ChannelManager#c16e'), connection=W_CONN, spec=Inst('bumble.l2cap:LeCreditBasedChannelSpec#c16'), count=Const(1)),
+    ghost=W_GHOST,
+    requires=lambda self, ghost: [not ghost.cut],
+    # the connection goes away while the request is outstanding: the real ChannelManager.on_disconnection runs on the tables this
+    # function has just filled; the waiter is released (cancelled) and nothing of the connection is registered again
+    ensures=lambda self, connection, ghost: [not ghost.cut],
+    ensures_names=['normal-return-only-without-a-cut'],
+    raises={asyncio.CancelledError: lambda self, connection, ghost: [ghost.cut, no_l2cap_state(self, connection)], RuntimeError: None},
+    modifies=['*'],
+    inline=['ChannelManager.on_disconnection'] + FUT_INLINE,
+    stubs=WAIT_STUBS,
+    await_hook=make_cut_hook(lambda path, env: call_method(path, env['self'], 'on_disconnection', path.getattr(env['connection'], 'handle'), 0x13)),
+    note='bounded(count=1: one channel requested; the tables start empty); channel objects and the request PDU are uninterpreted (skeleton)',
+)
